@@ -272,8 +272,8 @@ func (e *Enc) encodeInstr(b *ssa.BasicBlock, ins ssa.Instruction, st *State) {
 		x := e.term(ins.X)
 		switch xt := ins.X.Type().Underlying().(type) {
 		case *types.Basic: // string
-			e.safe("safe:idx", e.idxInRange(idx, fmt.Sprintf("(str.len %s)", x)), ins.Pos())
-			e.setVal(ins, fmt.Sprintf("(str.at %s %s)", x, idx))
+			e.safe("safe:idx", e.idxInRange(idx, fmt.Sprintf("(gs.len %s)", x)), ins.Pos())
+			e.setVal(ins, fmt.Sprintf("(gs.at %s %s)", x, idx))
 		case *types.Array:
 			e.safe("safe:idx", e.idxInRange(idx, e.st.idxLit(xt.Len())), ins.Pos())
 			e.setVal(ins, fmt.Sprintf("(select %s %s)", x, idx))
@@ -482,7 +482,7 @@ func (e *Enc) encUnOp(ins *ssa.UnOp, st *State) {
 func (e *Enc) strExt(a, b string) {
 	// extensionality instance for a pair of strings
 	k := e.freshConst("strdiff", e.st.idx())
-	e.assume(fmt.Sprintf("(=> (not (= %s %s)) (or (not (= (str.len %s) (str.len %s))) (and (idx.le idx.zero %s) (idx.lt %s (str.len %s)) (not (= (str.at %s %s) (str.at %s %s))))))", a, b, a, b, k, k, a, a, k, b, k))
+	e.assume(fmt.Sprintf("(=> (not (= %s %s)) (or (not (= (gs.len %s) (gs.len %s))) (and (idx.le idx.zero %s) (idx.lt %s (gs.len %s)) (not (= (gs.at %s %s) (gs.at %s %s))))))", a, b, a, b, k, k, a, a, k, b, k))
 }
 
 func (e *Enc) encBinOp(ins *ssa.BinOp, st *State) {
@@ -519,7 +519,7 @@ func (e *Enc) encBinOp(ins *ssa.BinOp, st *State) {
 		return
 	}
 	if e.st.sortOf(xt) == "Str" && ins.Op == token.ADD {
-		e.setVal(ins, fmt.Sprintf("(str.cat %s %s)", x, y))
+		e.setVal(ins, fmt.Sprintf("(gs.cat %s %s)", x, y))
 		return
 	}
 	if e.st.sortOf(xt) == "Bool" {
@@ -591,16 +591,16 @@ func (e *Enc) encConvert(ins *ssa.Convert, st *State) {
 		k, ks := e.elemsKey(elem)
 		arr := e.freshConst("bytesof", fmt.Sprintf("(Array %s %s)", e.st.idx(), e.st.sortOf(elem)))
 		if e.st.sortOf(elem) == e.st.byteSort() {
-			e.assume(fmt.Sprintf("(forall ((i %s)) (! (=> (and (idx.le idx.zero i) (idx.lt i (str.len %s))) (= (select %s i) (str.at %s i))) :pattern ((select %s i))))", e.st.idx(), x, arr, x, arr))
-			e.assume(fmt.Sprintf("(= (str.of %s %s idx.zero (str.len %s)) %s)", r, arr, x, x))
+			e.assume(fmt.Sprintf("(forall ((i %s)) (! (=> (and (idx.le idx.zero i) (idx.lt i (gs.len %s))) (= (select %s i) (gs.at %s i))) :pattern ((select %s i))))", e.st.idx(), x, arr, x, arr))
+			e.assume(fmt.Sprintf("(= (gs.of %s %s idx.zero (gs.len %s)) %s)", r, arr, x, x))
 		}
 		e.set(st, k, ks, fmt.Sprintf("(store %s %s %s)", e.get(st, k, ks), r, arr))
-		e.setVal(ins, fmt.Sprintf("(mkslice %s idx.zero (str.len %s) (str.len %s))", r, x, x))
+		e.setVal(ins, fmt.Sprintf("(mkslice %s idx.zero (gs.len %s) (gs.len %s))", r, x, x))
 	case fs == "Slice" && ts == "Str":
 		elem := ft.Underlying().(*types.Slice).Elem()
 		if e.st.sortOf(elem) == e.st.byteSort() {
 			k, ks := e.elemsKey(elem)
-			e.setVal(ins, fmt.Sprintf("(str.of (sl.arr %s) (select %s (sl.arr %s)) (sl.off %s) (sl.len %s))", x, e.get(st, k, ks), x, x, x))
+			e.setVal(ins, fmt.Sprintf("(gs.of (sl.arr %s) (select %s (sl.arr %s)) (sl.off %s) (sl.len %s))", x, e.get(st, k, ks), x, x, x))
 		} else {
 			e.havocVal(ins, st, "string from rune slice")
 		}
@@ -721,8 +721,8 @@ func (e *Enc) encLookup(ins *ssa.Lookup, st *State) {
 		}
 	default: // string index
 		idx := e.toIdx(ins.Index)
-		e.safe("safe:idx", e.idxInRange(idx, fmt.Sprintf("(str.len %s)", x)), ins.Pos())
-		e.setVal(ins, fmt.Sprintf("(str.at %s %s)", x, idx))
+		e.safe("safe:idx", e.idxInRange(idx, fmt.Sprintf("(gs.len %s)", x)), ins.Pos())
+		e.setVal(ins, fmt.Sprintf("(gs.at %s %s)", x, idx))
 	}
 }
 
@@ -768,7 +768,7 @@ func (e *Enc) encNext(ins *ssa.Next, st *State) {
 	ic := e.freshConst("i."+ins.Name(), e.st.idx())
 	rc := e.freshConst("r."+ins.Name(), e.st.sortOf(types.Typ[types.Rune]))
 	s := e.term(rng.X)
-	e.assume(fmt.Sprintf("(=> %s %s)", okc, e.idxInRange(ic, fmt.Sprintf("(str.len %s)", s))))
+	e.assume(fmt.Sprintf("(=> %s %s)", okc, e.idxInRange(ic, fmt.Sprintf("(gs.len %s)", s))))
 	e.assumeWFg(rc, types.Typ[types.Rune], st, "true")
 	e.note("string range iteration abstracted (positions and runes unconstrained)")
 	e.tup[ins] = []string{okc, ic, rc}
@@ -783,12 +783,12 @@ func (e *Enc) encSlice(ins *ssa.Slice, st *State) {
 	}
 	switch xt := ins.X.Type().Underlying().(type) {
 	case *types.Basic: // string
-		hi := fmt.Sprintf("(str.len %s)", x)
+		hi := fmt.Sprintf("(gs.len %s)", x)
 		if ins.High != nil {
 			hi = e.toIdx(ins.High)
 		}
-		e.safe("safe:slice", fmt.Sprintf("(and (idx.le idx.zero %s) (idx.le %s %s) (idx.le %s (str.len %s)))", lo, lo, hi, hi, x), ins.Pos())
-		e.setVal(ins, fmt.Sprintf("(str.sub %s %s %s)", x, lo, hi))
+		e.safe("safe:slice", fmt.Sprintf("(and (idx.le idx.zero %s) (idx.le %s %s) (idx.le %s (gs.len %s)))", lo, lo, hi, hi, x), ins.Pos())
+		e.setVal(ins, fmt.Sprintf("(gs.sub %s %s %s)", x, lo, hi))
 	case *types.Slice:
 		hi := fmt.Sprintf("(sl.len %s)", x)
 		if ins.High != nil {
